@@ -1118,5 +1118,98 @@ Section RosScratch.
       intros H0 Hts E. pose proof (ros_attempt_sizes_within_the_interval fuel time_step s H0 Hts) as X.
       rewrite E in X. exact (sizes_ok_next_attempt _ _ _ _ _ _ _ _ _ _ _ _ _ X).
     Qed.
+
+    (* ---------- C07: no step exceeds max(h_min, h_max') once the first one does not ---------- *)
+    Definition bounded (B : Q) (e : event) : Prop :=
+      match e with EvStep _ H => phi H <= B | EvAttempt H _ _ _ _ _ => phi H <= B | _ => True end.
+    Lemma plain_bounded B a : Forall plain a -> Forall (bounded B) a.
+    Proof. induction 1 as [|e a He Ha IH]; constructor; [destruct e; cbn in *; tauto | exact IH]. Qed.
+
+    Definition binv (ts hm : T) (B : Q) (l : loop_state) (tr : list event) : Prop :=
+      tinv ts l /\ phi (l_H l) <= B /\ Forall (bounded B) tr.
+
+    Lemma iter_bounded ts hm B l tr :
+      phi (p_h_min p) <= B -> phi hm <= B -> binv ts hm B l tr ->
+      match iter ts hm l with
+      | inr (l', ev) => binv ts hm B l' (tr ++ ev)
+      | inl (_, _, _, _, ev) => Forall (bounded B) (tr ++ ev)
+      end.
+    Proof.
+      intros Bmin Bmax (HT & HB & HF).
+      pose proof (iter_time_bounds ts hm l HT) as HTB.
+      rewrite ros_iter_split in *.
+      pose proof (top_time_bounds ts l HT) as Htop.
+      assert (Htop2 : match top_part ts l with inl _ => True | inr (l1, _) => phi (l_H l1) <= B end).
+      { unfold top_part. destruct (l_fresh l); [|exact HB].
+        destruct (negb _); [exact I|]. destruct (_ <? _); [exact I|]. destruct (_ || _); [exact I|].
+        cbv zeta. cbn [l_H].
+        destruct (tmin_cases (l_H l) (nabs (nsub N ts (l_t l)))) as [[-> Hc] | [-> Hc]]; lra. }
+      destruct (top_part ts l) as [st | [l1 ev0]]; [rewrite app_nil_r; exact HF|].
+      destruct Htop as (HT1 & Hfr1 & Hev).
+      assert (HH1 : 0 <= phi (l_H l1)).
+      { destruct HT1 as [_ HH1]. specialize (HH1 Hfr1). tauto. }
+      assert (HF0 : Forall (bounded B) (tr ++ ev0)).
+      { apply Forall_app. split; [exact HF|]. destruct Hev as [[_ ->] | [_ [-> _]]]; repeat constructor. exact Htop2. }
+      unfold attempt_part in *. cbv zeta in *.
+      pose proof (stages_plain (l_H l1)) as SP.
+      match goal with |- context [stages ?h ?s1] => specialize (SP s1); destruct (stages h s1) as [[s2 evs] nf] end.
+      cbn [fst snd] in SP. apply (plain_bounded B) in SP.
+      match goal with |- context [isnan ?e] => set (err := e) in * end.
+      assert (EV : forall alpha (jac1 : M) ok y yn ye tail, Forall (bounded B) tail ->
+                 Forall (bounded B) (tr ++ (ev0 ++ [EvFactor (l_H l1) alpha jac1] ++ evs) ++ [EvAttempt (l_H l1) err ok y yn ye] ++ tail)).
+      { intros alpha jac1 ok y yn ye tail Ht. rewrite app_assoc. apply Forall_app. split.
+        - rewrite app_assoc. apply Forall_app. split; [exact HF0|]. constructor; [exact I | exact SP].
+        - constructor; [exact Htop2 | exact Ht]. }
+      assert (EV0 : forall alpha (jac1 : M) ok y yn ye,
+                 Forall (bounded B) (tr ++ (ev0 ++ [EvFactor (l_H l1) alpha jac1] ++ evs) ++ [EvAttempt (l_H l1) err ok y yn ye])).
+      { intros. pose proof (EV alpha jac1 ok y yn ye [] (Forall_nil _)) as X. rewrite app_nil_r in X. exact X. }
+      destruct (isnan err); [apply EV0|].
+      destruct (isinf err); [apply EV0|].
+      destruct (ltb err (n1 N) || ltb (l_H l1) (p_h_min p)) eqn:Eacc.
+      - split; [exact HTB|]. split; [|apply EV0]. cbn [l_H].
+        match goal with |- context [tmax N ltb (p_h_min p) (tmin N ltb ?hn hm)] => set (Hnew := hn) end.
+        assert (X : phi (tmax N ltb (p_h_min p) (tmin N ltb Hnew hm)) <= B).
+        { destruct (tmax_cases (p_h_min p) (tmin N ltb Hnew hm)) as [[-> Hc] | [-> Hc]]; [exact Bmin|].
+          destruct (tmin_cases Hnew hm) as [[E1 Hd] | [E1 Hd]]; rewrite E1 in *; lra. }
+        destruct (l_reject_last l1); [|exact X].
+        destruct (tmin_cases (tmax N ltb (p_h_min p) (tmin N ltb Hnew hm)) (l_H l1)) as [[-> Hc] | [-> Hc]]; lra.
+      - apply Bool.orb_false_iff in Eacc. destruct Eacc as [Eerr _].
+        split; [exact HTB|]. split.
+        + cbn [l_H]. pose proof (rejected_not_larger (l_H l1) err (l_reject_more l1) HH1 Eerr) as X. cbv zeta in X. lra.
+        + apply EV. destruct in_place; repeat constructor.
+    Qed.
+
+    Theorem ros_loop_sizes_bounded fuel ts hm B l :
+      phi (p_h_min p) <= B -> phi hm <= B -> tinv ts l -> phi (l_H l) <= B ->
+      Forall (bounded B) (r_trace (loop fuel ts hm l [])).
+    Proof.
+      intros Bmin Bmax HT HB.
+      assert (G : forall fuel0 l0 tr, binv ts hm B l0 tr -> Forall (bounded B) (r_trace (loop fuel0 ts hm l0 tr))).
+      { induction fuel0 as [|f IH]; intros l0 tr HI; cbn [ros_loop].
+        - cbn [r_trace]. exact (proj2 (proj2 HI)).
+        - pose proof (iter_bounded ts hm B l0 tr Bmin Bmax HI) as Hs.
+          destruct (iter ts hm l0) as [[[[[st t] sts] s1] ev]|[l1 ev]].
+          + cbn [r_trace]. exact Hs.
+          + apply IH. exact Hs. }
+      apply G. split; [exact HT|]. split; [exact HB | constructor].
+    Qed.
+
+    (* the limit and the first step size Solve computes on entry (ros_solve's own expressions) *)
+    Definition solve_h_max (ts : T) : T := if is_zero (p_h_max p) then ts else tmin N ltb ts (p_h_max p).
+    Definition solve_first_H (ts : T) : T :=
+      let h_max := solve_h_max ts in
+      let h_start := if is_zero (p_h_start p) then tmax N ltb (p_h_min p) delta_min else tmin N ltb h_max (p_h_start p) in
+      let H0 := tmin N ltb (tmax N ltb (nabs (p_h_min p)) (nabs h_start)) (nabs h_max) in
+      if leb (nabs H0) (nmul N ten (p_round_off p)) then delta_min else H0.
+
+    Theorem ros_sizes_bounded fuel time_step (s : rstate) B :
+      phi (n0 N) == 0 -> 0 <= phi time_step ->
+      phi (p_h_min p) <= B -> phi (solve_h_max time_step) <= B -> phi (solve_first_H time_step) <= B ->
+      Forall (bounded B) (r_trace (solve fuel time_step s)).
+    Proof.
+      intros H0 Hts Bmin Bmax Bfirst. unfold ros_solve. cbv zeta. cbn [r_trace].
+      apply (ros_loop_sizes_bounded fuel time_step (solve_h_max time_step) B); try assumption.
+      unfold tinv. cbn [l_t l_fresh]. split; [rewrite H0; split; lra | discriminate].
+    Qed.
   End TimeBounds.
 End RosScratch.
